@@ -205,10 +205,14 @@ func checksImageV1() {
 		`values-sorted: forall d string, a int, b int :: d in m && 0 <= a && a < b && b < len(m[d]) ==> m[d][a] <= m[d][b]`}}.withNote(
 		"k_dir / k_byDirSrc / k_byDirPos are uninterpreted: checked as the existence of witnesses (k_dir := filepath.Dir; the slots of m are a permutation of the normalized inputs, directory by directory)")
 	pl := min(L-4, 3)
-	dom := all("a./", 3)
-	dom = append(dom, "a/b/c", "a/b/../c", "/a/b", "b/a", "a//b")
+	dl := 2
+	if L >= 9 {
+		dl = 3
+	}
+	extra := []string{"a/b/c", "a/b/../c", "/a/b", "b/a", "a//b", "a/a/a", "../a", "a/."}
+	dom := append(all("a./", dl), extra...)
 	check("normalpath.ByDir groups the normalized paths by directory, each group sorted, nothing lost or invented", []contract{cByDir},
-		fmt.Sprintf("no argument and all lists of 1..%d paths over all strings over {a . /} up to length 3 plus 5 longer paths (%d paths)", pl, len(dom)), func(t *T) {
+		fmt.Sprintf("no argument and all lists of 1..%d paths over all strings over {a . /} up to length %d plus 8 longer paths (%d paths)", pl, dl, len(dom)), func(t *T) {
 			seqs(dom, pl, func(paths []string) {
 				t.Case()
 				m := normalpath.ByDir(paths...)
